@@ -126,6 +126,22 @@ def run(tier, replay):
                 lines = layout + ["DEF SEG = VARSEG(%s)" % ref, "POKE VARPTR(%s), %d" % (ref, lo), "POKE VARPTR(%s) + 1, %d" % (ref, hi), "PRINT " + ref]
                 progs.append(NL.join(lines) + NL)
                 pmeta.append(("poke", (lo, hi)))
+    # the same for variables of a SUB / STATIC SUB / FUNCTION while the module owns variables of its own, and after the
+    # segment was set to an array and set back with a plain DEF SEG; the neighbours of a poked variable keep their values
+    for a in EDGE[::2] + [rng.randint(-32768, 32767) for _ in range(12)]:
+        lo, hi = (a & 0xffff) & 0xff, (a & 0xffff) >> 8
+        for head, tail in (("N% = 7\r\nM& = 70000\r\nP\r\nSUB P\r\n", "END SUB\r\n"), ("N% = 7\r\nP\r\nP\r\nSUB P STATIC\r\n", "END SUB\r\n"),
+                           ("DIM G%(3)\r\nN% = F%\r\nFUNCTION F%\r\n", "END FUNCTION\r\n"), ("DIM SHARED X%\r\nN% = 7\r\nP\r\nSUB P\r\n", "END SUB\r\n")):
+            for segline in ("DEF SEG = VARSEG(X%)\r\n", "", "DIM Q%(2)\r\nQ%(1) = 1027\r\nDEF SEG = VARSEG(Q%(1))\r\nDEF SEG\r\n"):
+                progs.append(head + "W%% = 1\r\nX%% = %d\r\nY%% = 2\r\n" % a + segline + "PRINT PEEK(VARPTR(X%)); PEEK(VARPTR(X%) + 1); W%; Y%\r\n" + tail)
+                pmeta.append(("peek", a))
+                progs.append(head + "W% = 1\r\nX% = 0\r\nY% = 2\r\n" + segline + "POKE VARPTR(X%%), %d\r\nPOKE VARPTR(X%%) + 1, %d\r\nPRINT X%%; W%%; Y%%\r\n" % (lo, hi) + tail)
+                pmeta.append(("poke", (lo, hi)))
+        for segline in ("", "DIM Q%(2)\r\nQ%(1) = 1027\r\nDEF SEG = VARSEG(Q%(1))\r\nDEF SEG\r\n", "DIM Q%(2)\r\nDEF SEG = VARSEG(Q%(1))\r\nDEF SEG = VARSEG(X%)\r\n"):
+            progs.append("W%% = 1\r\nX%% = %d\r\nY%% = 2\r\n" % a + segline + "PRINT PEEK(VARPTR(X%)); PEEK(VARPTR(X%) + 1); W%; Y%\r\n")
+            pmeta.append(("peek", a))
+            progs.append("W% = 1\r\nX% = 0\r\nY% = 2\r\n" + segline + "POKE VARPTR(X%%), %d\r\nPOKE VARPTR(X%%) + 1, %d\r\nPRINT X%%; W%%; Y%%\r\n" % (lo, hi))
+            pmeta.append(("poke", (lo, hi)))
     # doubles built inside BASIC: +-2^k by repeated doubling / halving, small whole numbers
     for k in list(range(0, 120, 3)) + [52, 53, 62, 63, 64, 65, 100, 200, 500, 1000, 1023]:
         for sign in (1, -1):
@@ -163,9 +179,13 @@ def run(tier, replay):
             elif kind == "peek":
                 rid += 1
                 recs.append({"id": rid, "k": "tob", "a": arg, "res": [int(nums[0]), int(nums[1])], "text": t})
+                if nums[2:4] not in ([], ["1", "2"]):
+                    rep.violation({"rendered_text": t, "observed": out, "expected": "the neighbours W% and Y% are 1 and 2"}, {"prog:neighbours"}, name="neighbours")
             elif kind == "poke":
                 rid += 1
                 recs.append({"id": rid, "k": "fromb", "b": list(arg), "res": int(nums[0]), "text": t})
+                if nums[1:3] not in ([], ["1", "2"]):
+                    rep.violation({"rendered_text": t, "observed": out, "expected": "the neighbours W% and Y% are still 1 and 2"}, {"prog:neighbours"}, name="neighbours")
             else:
                 # LEN = 8, MKD$(x) equals the eight expected bytes, CVD(MKD$(x)) = x and their ratio is 1
                 want = ["8", "-1", "-1", "1"]
